@@ -120,7 +120,9 @@ func (c *FileCache) Close(file *os.File) error {
 		return nil
 	}
 
-	if elem, ok := c.cache[name]; ok {
+	// A different File with the same name may be in the cache, if this file
+	// was opened while caching was disabled, and must not be mistaken for it.
+	if elem, ok := c.cache[name]; ok && elem.Value.(*entry).file == file {
 		ent := elem.Value.(*entry)
 		if ent.refs == 0 {
 			return &os.PathError{Op: "close", Path: name, Err: os.ErrClosed}
